@@ -97,7 +97,7 @@ def main():
             first = runs[0].get("alarm") if runs else None
             now = ("ALARM (%s)" % esc("; ".join(r.get("violation_lines") or ["exit %s" % r.get("exit")]))[:90]) if r.get("alarm") else ("quiet" if r else "not run")
             hist = ("first run ALARM; " if first and not r.get("alarm") else "") + esc(m.get("note", ""))
-            out.append("| %s | %s | %s: %s | %s | %s |" % (m["id"], m["property"], esc(m.get("kind"))[:80], esc(m.get("what"))[:240], now, hist))
+            out.append("| %s | %s | %s: %s | %s | %s |" % (m["id"], ",".join(m.get("check_with") or [m["property"]]), esc(m.get("kind"))[:80], esc(m.get("what"))[:240], now, hist))
         out.append("")
 
     # II.8 notes
